@@ -45,6 +45,17 @@ UNITS = {
             "fn decode_escaped_bytes(data: &[u8]) -> Result<(Vec<u8>, usize)>",
         ],
     },
+    "row_serde": {
+        "src": "src/sql/row_serde.rs",
+        "anchors": [
+            "pub fn serialize_row_into(row: &[Value<'_>], buf: &mut Vec<u8>)",
+            "fn serialize_value_into(value: &Value<'_>, buf: &mut Vec<u8>)",
+            "pub fn deserialize_row_into(",
+            "fn deserialize_value(data: &[u8], offset: &mut usize) -> Result<Value<'static>>",
+            "pub fn row_size(row: &[Value<'_>]) -> usize",
+            "fn value_size(value: &Value<'_>) -> usize",
+        ],
+    },
 }
 
 PROPS = {
@@ -64,6 +75,14 @@ PROPS = {
         "level_note": "Trusted: Kani/CBMC; the Vec/SmallVec impls of KeyBuffer (harness supplies a fixed-array KeyBuffer to the real generic encoders); Rust slice Ord as the meaning of bytewise comparison. Nested array/tuple/range/json encoders are not covered.",
         "technique": "Kani full-domain Hoare triples on the real generic encoders/decoder + Verus loop-invariant proof of the escape codec on mechanically extracted functions",
         "kani_units": ["key"],
+        "explanation": "",
+    },
+    "C33": {
+        "level": "proof",
+        "level_text": "Proof for all payloads of every fixed-width Value variant (Int, Float incl. NaN/inf/±0, Null, Uuid, MacAddr, Inet4/6, TimestampTz, Interval, Enum, Decimal, Point, GeoBox, Circle): deserialize(serialize(v) ++ anything) returns the same variant and payload and consumes exactly value_size(v) == bytes written. Variable-length variants and row framing/sequence are bounded stand-ins (len<=2, rows of <=2 columns, 2 rows).",
+        "level_note": "Trusted: Kani/CBMC; alloc::vec::Vec and SmallVec as compiled by Kani (executed, not assumed). Bounded: Text/Blob/Jsonb/Vector/ToastPointer payload length <= 2; rows <= 2 columns; `row.len() as u16` truncation above 65535 columns not covered.",
+        "technique": "Kani full-domain Hoare triples on the real RowSerde functions (per-variant round-trip + size contract), bounded harnesses for variable-length payloads and row sequences",
+        "kani_units": ["row_serde"],
         "explanation": "",
     },
 }
